@@ -58,7 +58,7 @@ Step(n, ns, removeIds, add) ==
   /\ flight' = [id \in (DOMAIN flight \ removeIds) \cup DOMAIN add |-> IF id \in DOMAIN add THEN add[id] ELSE flight[id]]
   /\ hist' = HistNext(hist, node, [node EXCEPT ![n] = ns])
   /\ bad' = bad \cup ViolatedNames(hist', node')
-  /\ (bad' # bad => PrintT(<<"PROP_VIOLATED", l, bad' \ bad>>))
+  /\ (bad' # bad => PrintT(<<"PROP_VIOLATED", l, bad' \ bad, hist'.trig>>))
 
 EmptyF == [x \in {} |-> 0]
 TInit == /\ node = [n \in Node |-> InitNode(n)] /\ flight = EmptyF /\ hist = InitHist /\ l = 1 /\ bad = {}
@@ -123,9 +123,18 @@ TRestart ==
          ns == Restart(node[n], E.now)
      IN /\ ns = NsOf(n, E.ns) /\ Step(n, ns, {}, EmptyF)
 
-\* C30 driver: the cluster is observed at quiescence
-TQuiet == /\ IsEvent("Quiet") /\ UNCHANGED <<node, flight, hist, bad>>
-          /\ DOMAIN flight = {}
+\* C30 driver: after a healthy period the cluster is observed at quiescence; HealthyProgress is a property of
+\* the implementation (reported like the others), not a conformance condition
+Leaders == {n \in Node : node[n].st = "Leader"}
+Converged(vals) ==
+  /\ Cardinality(Leaders) = 1
+  /\ \A n \in Node : node[n].st \in {"Leader", "Follower"} /\ node[n].term = node[CHOOSE x \in Leaders : TRUE].term
+  /\ \A a, b \in Node : node[a].log = node[b].log
+  /\ \A v \in vals : \A n \in Node : \E j \in DOMAIN node[n].log : node[n].log[j].val = v /\ node[n].log[j].com
+TQuiet == /\ IsEvent("Quiet") /\ UNCHANGED <<node, flight, hist>>
+          /\ E.drained /\ DOMAIN flight = {}
+          /\ bad' = bad \cup (IF Converged(Range(E.appended)) THEN {} ELSE {"HealthyProgress"})
+          /\ (bad' # bad => PrintT(<<"PROP_VIOLATED", l, bad' \ bad, hist.trig>>))
 
 TNext == TReset \/ TProcess \/ TRequest \/ TResponse \/ TDrop \/ TDup \/ TAppend \/ TRestart \/ TQuiet
 
@@ -138,6 +147,22 @@ TSkip == /\ l <= Len(Rec) /\ ~ENABLED TNext
 TEnd == l = Len(Rec) + 1 /\ PrintT(<<"TRACE_END", Len(Rec)>>) /\ l' = l + 1 /\ UNCHANGED <<node, flight, hist, bad>>
 
 TraceSpec == TInit /\ [][TNext \/ TSkip \/ TEnd]_tvars
+
+\* ---- property-level validation (used when the code no longer follows RaftCore step by step: MODEL-DRIFT) ----
+\* The observed node states are taken as they are (no conformance condition); history and properties as above.
+\* This decides the properties on the implementation's own executions independently of the mechanism model.
+TAbsStep == /\ l <= Len(Rec) /\ E.ev \in {"Process", "Request", "Response", "Append", "Restart"} /\ l' = l + 1
+            /\ Step(E.node, NsOf(E.node, E.ns), {}, EmptyF)
+TAbsOther == /\ l <= Len(Rec) /\ E.ev \in {"Drop", "Dup"} /\ l' = l + 1 /\ UNCHANGED <<node, flight, hist, bad>>
+TAbsQuiet == /\ IsEvent("Quiet") /\ UNCHANGED <<node, flight, hist>>
+             /\ bad' = bad \cup (IF E.drained /\ Converged(Range(E.appended)) THEN {} ELSE {"HealthyProgress"})
+             /\ (bad' # bad => PrintT(<<"PROP_VIOLATED", l, bad' \ bad, hist.trig>>))
+TNextAbs == TReset \/ TAbsStep \/ TAbsOther \/ TAbsQuiet
+TSkipAbs == /\ l <= Len(Rec) /\ ~ENABLED TNextAbs
+            /\ PrintT(<<"RUN_REJECTED", l>>)
+            /\ l' = NextReset(l + 1)
+            /\ node' = [n \in Node |-> InitNode(n)] /\ flight' = EmptyF /\ hist' = InitHist /\ bad' = {}
+TraceSpecAbs == TInit /\ [][TNextAbs \/ TSkipAbs \/ TEnd]_tvars
 
 \* ---- properties evaluated in every state of every trace -----------------------------------------
 ElectionSafety == ElectionSafetyP(hist)
